@@ -41,6 +41,7 @@ M_O2_SMOOTH = "second-order-smoothed-divides-by-zero-neighbours"
 M_EXTR_GAPS = "extrusion-ignores-line-connectivity"
 M_EXTR_NVERT = "extrusion-offsets-by-max-t-not-point-count"
 M_TRI_X = "to-meshtri-x-numbers-centroids-from-max-t"
+M_TRI_EMPTY = "to-meshtri-empty-boundary-tag-becomes-float-array"
 
 
 def _sorted_cols(a):
@@ -756,6 +757,19 @@ def op_to_meshtri(ctx, rng, old, style=None, conform_expected=True):
             exp_sub[name] = {new.ckey(i) for i in range(new.nt) if parents[i] in sel}
         exp_bnd = {name: bnd_geo(old, arr) for name, arr in obnd.items()}
         check_tags(ctx, op, new, exp_sub, exp_bnd, **info)
+        # predicate of the recorded mechanism: an EMPTY tag of the input comes back as a float64 array (the next
+        # restrict/trace then raises IndexError when it indexes with it)
+        nsub, nbnd = tag_arrays(new_mesh)
+        floats = [n_ for n_, v in nbnd.items() if n_ in obnd and np.asarray(obnd[n_]).size == 0
+                  and np.asarray(v).size == 0 and not np.issubdtype(np.asarray(v).dtype, np.integer)]
+        others = [n_ for n_, v in list(nbnd.items()) + list(nsub.items())
+                  if not np.issubdtype(np.asarray(v).dtype, np.integer) and n_ not in floats]
+        ctx.check("removed-tags-vanish", not floats, mech=M_TRI_EMPTY, names=floats, **info)
+        ctx.check("removed-tags-vanish", not others, mech=f"{op}:tag-array-not-integer", names=others, **info)
+        if floats:
+            ctx.reached("to-meshtri-with-empty-boundary-tag")
+            new = St(attach_tags(new_mesh, nsub, {n_: (np.asarray(v).astype(np.int32) if n_ in floats else v)
+                                                  for n_, v in nbnd.items()}), "tri", 1)
         if osub or obnd:
             ctx.nontrivial(op, old.cls, tag_kinds(osub, obnd))
         elif nt > 1:
@@ -997,7 +1011,7 @@ def _draw_transform(rng, old, which):
                                                    "nargs": nargs}
     if which == "morphed-nonlinear":
         j = int(rng.integers(d))
-        i = int(rng.integers(d))
+        i = int((j + 1 + rng.integers(d - 1)) % d) if d > 1 else 0    # i != j: a shear, injective
         amp = float(rng.choice([0.125, 0.25, -0.125]))
 
         def f(p, i=i, j=j, amp=amp):
@@ -1040,6 +1054,9 @@ def op_transform(ctx, rng, old, which=None):
             exact = all(X.frv(new.P[k]) == img[k] for k in range(len(img)))
     else:
         pexp = b(pold)
+        if np.unique(pexp, axis=1).shape[1] != np.unique(pold, axis=1).shape[1]:
+            ctx.drop("nonlinear-morph-not-injective-on-the-nodes")
+            return None
         okp = pn.shape == pexp.shape and bool(np.abs(pn - pexp).max() <= 1e-13 * max(scale, float(np.abs(pexp).max())))
     ctx.check("coordinates-transformed", okp, mech=f"{op}:coordinates:{old.kind}{old.order}", **info)
     ctx.check("shared-vertex-structure", np.array_equal(np.asarray(new_mesh.t), np.asarray(m.t)),
@@ -1062,6 +1079,9 @@ def op_transform(ctx, rng, old, which=None):
         ctx.nontrivial(op, old.cls, tag_kinds(osub, obnd))
     ctx.sample({"op": op, "cls": old.cls, "arg": desc, "exact": exact,
                 "det": None if factor is None else float(factor)})
+    if A is None and valid and old.order == 1 and own_validity(new, need_measure=True):
+        ctx.drop("nonlinear-morph-folded-a-cell")
+        return None
     return new if valid else None
 
 
